@@ -378,9 +378,19 @@ class ResourceLeakFixer(MetadataPreservingTransformer, NameAndAncestorResolution
         self, name: cst.Name, block: cst.Module | cst.IndentedBlock, index: int
     ) -> bool:
         accesses = self.find_accesses(name)
+        # find_accesses only knows the accesses made in the name's own scope: a nested
+        # function, lambda, comprehension or generator expression that reads the name may
+        # run after the block is left
+        if scope := self.get_metadata(ScopeProvider, name, None):
+            for assignment in scope.assignments[name]:
+                if any(ref.scope is not scope for ref in assignment.references):
+                    return True
         for node in (a.node for a in accesses):
             # returned or yielded
             if self.is_return_value(node) or self.is_yield_value(node):
+                return True
+            # kept in a collection, or one of its attributes (e.g. a bound method) is kept
+            if self._is_stored(node):
                 return True
             # argument of a call
             # TODO exclude calls that spawn dependent resources here...
@@ -396,6 +406,38 @@ class ResourceLeakFixer(MetadataPreservingTransformer, NameAndAncestorResolution
             if not self._filter_ancestors(node, block.body[index:]):
                 return True
 
+        return False
+
+    def _is_stored(self, node: cst.CSTNode) -> bool:
+        """
+        The resource is put into a collection literal, or an attribute of it that is not
+        called on the spot (`read = f.read`) is assigned, collected, returned or yielded.
+        """
+        parent = self.get_parent(node)
+        match parent:
+            case cst.Element() | cst.StarredElement() | cst.DictElement():
+                return True
+            case cst.CompFor(iter=it) if it is node:
+                # the outermost iterable of a generator expression is evaluated
+                # now, but read when the generator is consumed
+                comprehension = self.get_parent(parent)
+                if isinstance(comprehension, cst.GeneratorExp):
+                    return True
+            case cst.Attribute(value=value) if value is node:
+                gparent = self.get_parent(parent)
+                match gparent:
+                    case cst.Call(func=func) if func is parent:
+                        return False
+                    case (
+                        cst.Assign()
+                        | cst.AnnAssign()
+                        | cst.Element()
+                        | cst.StarredElement()
+                        | cst.DictElement()
+                        | cst.Return()
+                        | cst.Yield()
+                    ):
+                        return True
         return False
 
     def _filter_ancestors(
